@@ -124,8 +124,12 @@ class Runner:
 
             from lerax.compatibility.gymnax import GymnaxToLeraxEnv
 
-            self.gx_env, self.gx_params = gymnax.make("CartPole-v1")
+            self.gx_env, self.gx_params = gymnax.make(cls.get("gx", "CartPole-v1"))
+            if cls.get("params"):
+                # NON-default parameters that the reset of the adapted environment depends on
+                self.gx_params = self.gx_params.replace(**cls["params"])
             self.env = GymnaxToLeraxEnv(self.gx_env, self.gx_params)
+            self.gx_box = cls.get("gx", "CartPole-v1") == "PointRobot-misc"
             self._gx_step = jax.jit(lambda k, s, a: self.gx_env.step_env(k, s, a, self.gx_params))
             self._gx_reset = jax.jit(lambda k: self.gx_env.reset_env(k, self.gx_params))
 
@@ -477,6 +481,14 @@ class Runner:
         return res
 
     # ---- GymnaxToLeraxEnv against the real gymnax CartPole twin
+    def _gx_action(self, a: int):
+        return jnp.asarray([0.1 * (2 * a - 1), 0.05], dtype=float) if getattr(self, "gx_box", False) else jnp.asarray(a)
+
+    @staticmethod
+    def _gx_state_equal(a, b) -> bool:
+        la, lb = jax.tree.leaves(a), jax.tree.leaves(b)
+        return len(la) == len(lb) and all(np.allclose(np.asarray(x, dtype=np.float64), np.asarray(y, dtype=np.float64), rtol=1e-5, atol=1e-6) for x, y in zip(la, lb))
+
     def _exec_gymnax_to_lerax(self, plan, props) -> RunResult:
         res = RunResult(Trace())
         tr = res.trace
@@ -488,17 +500,24 @@ class Runner:
             if op["op"] == "reset":
                 st = env.initial(key=key)
                 obs_t, twin = self._gx_reset(key)
-                if not np.allclose(np.asarray(st.observation), np.asarray(obs_t), atol=1e-6) or not np.allclose(np.asarray(env.observation(st, key=key)), np.asarray(obs_t), atol=1e-6):
+                if (not np.allclose(np.asarray(st.observation), np.asarray(obs_t), atol=1e-6) or not np.allclose(np.asarray(env.observation(st, key=key)), np.asarray(obs_t), atol=1e-6)
+                        or not self._gx_state_equal(st.env_state, twin)):
                     self._fail13(res, props, "adapter_outputs", "gymnax_twin_reset_differs")
+                    if "C01" in props:
+                        res.fail("C01", "reset_initial", "adapter_reset_is_not_an_initial_state_of_the_adapted_environment")
                 else:
                     res.ok("C13", "adapter_outputs")
+                    res.ok("C01", "reset_initial")
+                if self.cls.get("params"):
+                    res.events["E.gymnax_nondefault_params"] += 1
                 tr.ev("reset")
                 continue
             if st is None:
                 continue
-            nxt = env.transition(st, jnp.asarray(op["a"]), key=key)
-            obs_t, twin2, r_t, done_t, _ = self._gx_step(key, twin, jnp.asarray(op["a"]))
-            r = env.reward(st, jnp.asarray(op["a"]), nxt, key=key)
+            act = self._gx_action(op["a"])
+            nxt = env.transition(st, act, key=key)
+            obs_t, twin2, r_t, done_t, _ = self._gx_step(key, twin, act)
+            r = env.reward(st, act, nxt, key=key)
             term = env.terminal(nxt, key=key)
             # the twin runs jitted, the adapter eagerly: allow floating-point re-association
             same = np.allclose(np.asarray(nxt.observation), np.asarray(obs_t), rtol=1e-5, atol=1e-6) and close(float(r), float(r_t)) and bool(term) == bool(done_t)
@@ -512,6 +531,10 @@ class Runner:
             if bool(done_t):
                 st = env.initial(key=key)
                 _, twin = self._gx_reset(key)
+                if not self._gx_state_equal(st.env_state, twin):
+                    self._fail13(res, props, "adapter_outputs", "gymnax_twin_reset_differs", after="episode end")
+                    if "C01" in props:
+                        res.fail("C01", "reset_initial", "adapter_reset_is_not_an_initial_state_of_the_adapted_environment")
             else:
                 st, twin = nxt, twin2
             res.steps += 1
